@@ -1,3 +1,5 @@
+pub mod c30;
+
 pub fn all() -> Vec<&'static dyn simcore::Property> {
-    vec![]
+    vec![&c30::C30]
 }
